@@ -187,6 +187,67 @@ def run(ctx):
                 s3.violate({"src": "\n".join(inline), "twin": "\n".join(twin), name: "\n".join(runl), "history": f"an earlier assembly of the twin failed while {name} was " + ("missing" if broken is None else "broken: " + broken.strip())},
                            "same output", (b["status"], b.get("exc"), (b.get("error") or "")[:100]), "moving statements into an included file changes the output once an earlier assembly failed inside that file")
         s3.sample({"shape": "first: RUN between: … RUN { inner: RUN } done:"})
-        return [s, s2, s3, run_.repeat_stream()]
+        # ---- the conclusion of scan_append_tokens, evaluated on the real scanner (the theorem is about the model; this
+        # oracle shows the code behaves as the theorem says, with the stronger claim on positions)
+        from props import c15
+        s4 = core.Stream("S7-compositional", "newline-terminated chunks p (lines of generated programs, blank / indented lines, ';' and one-line or multi-line '/* */' comment lines) and arbitrary following texts r through the real scanner: when scan(p) succeeds, scan(p ++ r) = scan(p) without its EOF, exactly (types, texts, positions), followed by the tokens of scan(r) with their lines shifted by the number of lines of p (same types, texts, columns), and it fails iff scan(r) fails, with the same message and the shifted position; non-trivial = distinct (kinds of chunk, outcome)")
+        pool = []
+        for pr in progs[: (40 if tier == "quick" else 300)]:
+            ls = pr["src"].rstrip("\n").split("\n")
+            pool.append(ls)
+        fillers = ["", "   ", "\t", "; a comment", "   ; indented comment", "/* one line */", "/* two", "lines */", "nop ; eol", "lda #1 /* tail */",
+                   "label_zq:", ".db 1, 2 ; data", "x_zq = 3"]
+        bad_tails = ["lda.q 1", ".ascii 'open", "/* never closed", "lda 0x10,q", "$", "lda #1 $"]
+
+        def parse_ok(r):
+            body, _, _lines = r[3:].partition(" | ")
+            out = []
+            for t in body.split(" ") if body else []:
+                ty, v, ln, col = t.rsplit(":", 3) if t.count(":") >= 3 else (t, "", "0", "0")
+                out.append((ty, v, int(ln), int(col)))
+            return out
+        for i in range(120 if tier == "quick" else 1500):
+            ls = rng.choice(pool)
+            cut = rng.randrange(0, len(ls) + 1)
+            pl = ls[:cut]
+            for _ in range(rng.randrange(0, 3)):
+                pl.insert(rng.randrange(0, len(pl) + 1), rng.choice(fillers[:6] + fillers[8:]))
+            p_txt = "".join(l + "\n" for l in pl)
+            rl = list(ls[cut:])
+            for _ in range(rng.randrange(0, 3)):
+                rl.insert(rng.randrange(0, len(rl) + 1), rng.choice(fillers))
+            kind = rng.randrange(4)
+            if kind == 0:
+                rl.append(rng.choice(bad_tails))
+            r_txt = "\n".join(rl) + (rng.choice(["\n", "", "  "]) if rl else "")
+            if not p_txt:
+                continue
+            rp = c15.real_scan("initial", p_txt)
+            if not rp.startswith("ok "):
+                s4.count("chunk-does-not-scan")     # e.g. the cut fell inside a multi-line comment: the theorem's hypothesis fails
+                continue
+            rr = c15.real_scan("initial", r_txt)
+            rw = c15.real_scan("initial", p_txt + r_txt)
+            s4.cases += 1
+            nl = p_txt.count("\n")
+            tp = parse_ok(rp)[:-1]
+            inp = {"p": p_txt, "r": r_txt}
+            s4.nontrivial.add((rr[:3], len(tp) > 0, kind, "comment" in p_txt, "/*" in p_txt))
+            s4.count("r:" + rr.split(" ")[0])
+            if rr.startswith("ok "):
+                exp = tp + [(ty, v, ln + nl, col) for ty, v, ln, col in parse_ok(rr)]
+                if not rw.startswith("ok ") or parse_ok(rw) != exp:
+                    s4.violate(inp, "tokens of p (without EOF) followed by the tokens of r, lines shifted by %d" % nl, rw[:300], "scanning is not compositional over newline-terminated chunks: the tokens of p ++ r are not those of p followed by those of r")
+            elif rr.startswith("err "):
+                w = rr.split(" ")
+                expw = f"err {w[1]} {int(w[2]) + nl} {w[3]}"
+                # the message of "Invalid Input" quotes the rest of the text: identical in both scans
+                if not rw.startswith(expw + " "):
+                    s4.violate(inp, expw, rw[:200], "a lexical error of r is not reported (message, shifted line, column) when r follows the chunk p")
+            else:
+                if rw.split(" ")[0] != rr.split(" ")[0]:
+                    s4.violate(inp, rr[:80], rw[:80], "the outcome of scanning r changes when r follows the chunk p")
+        s4.sample({"p": "nop\n  ; note\n", "r": "lda #1\n"})
+        return [s, s2, s3, s4, run_.repeat_stream()]
     finally:
         run_.close()
